@@ -12,6 +12,7 @@ use super::*;
 //@include prelude/real.rs
 //@include prelude/wilson_lemmas.rs
 //@include prelude/wilson_lemmas_c17.rs
+//@include prelude/lemmas_ratio.rs
 } // mod spec
 pub mod code {
 use super::*;
